@@ -60,15 +60,15 @@ def check(run):
         run.tie_breaks.append('model driver failed on some case')
     failing = []
     agree = 0
-    hyp = {'DocWf': 0, 'DocInv': 0, 'SpecShape': 0, 'NamesOk': 0, 'all': 0, 'documents': 0}
+    hyp = {'DocWf': 0, 'DocInv': 0, 'SpecShape': 0, 'NamesOk': 0, 'ParentsOk': 0, 'all': 0, 'documents': 0}
     for it, r in zip(items, res):
         X.account(run, it, r)
-        if r['model'] and len(r['model'].get('I', '')) == 4:
+        if r['model'] and len(r['model'].get('I', '')) == 5:
             bits = r['model']['I']
             hyp['documents'] += 1
-            for k, name in enumerate(['DocWf', 'DocInv', 'SpecShape', 'NamesOk']):
+            for k, name in enumerate(['DocWf', 'DocInv', 'SpecShape', 'NamesOk', 'ParentsOk']):
                 hyp[name] += bits[k] == '1'
-            hyp['all'] += bits[1:] == '111'
+            hyp['all'] += bits[1:] == '1111'
         if r['impl'] is None or not r['dump'].get('D'):
             continue
         d = X.compare_model(r)
